@@ -58,6 +58,8 @@ fn jobs(args: &[String]) {
     let (mut timeout, mut jitter, mut dump) = (120u64, 1u64, None);
     // --noref 1: no in-process reference (the caller compares with solo runs in FRESH processes); every J line carries the digest
     let mut noref = false;
+    // --nopath 1: the sources are compiled as in-memory programs (no file path: REPL line, editor buffer, web playground)
+    let mut nopath = false;
     let mut paths: Vec<String> = vec![];
     let mut threads: Vec<Vec<usize>> = vec![];
     let mut i = 0;
@@ -67,6 +69,7 @@ fn jobs(args: &[String]) {
             "--jitter" => jitter = args[i + 1].parse().unwrap(),
             "--dump" => dump = Some(args[i + 1].clone()),
             "--noref" => noref = args[i + 1] == "1",
+            "--nopath" => nopath = args[i + 1] == "1",
             "--paths" => paths = args[i + 1].split(',').map(|s| s.to_string()).collect(),
             "--thread" => threads.push(args[i + 1].split(',').filter_map(|s| s.parse().ok()).collect()),
             _ => {}
@@ -84,7 +87,7 @@ fn jobs(args: &[String]) {
             continue;
         }
         if let Some(Some(s)) = srcs.get(u) {
-            let a = compile_all(s, Some(paths[u].clone().into()), 32);
+            let a = compile_all(s, if nopath { None } else { Some(paths[u].clone().into()) }, 32);
             println!("\n@@REF\t{u}\t{}\t{}\t{}\t{}", paths[u], a.status, a.nontrivial() as u8, a.digest());
             refs[u] = Some(a);
         }
@@ -107,7 +110,7 @@ fn jobs(args: &[String]) {
                 std::thread::sleep(Duration::from_micros((z >> 54) % 700));
                 for (j, &u) in list.iter().enumerate() {
                     let Some(Some(src)) = srcs.get(u) else { continue };
-                    let a = compile_all(src, Some(paths[u].clone().into()), 32);
+                    let a = compile_all(src, if nopath { None } else { Some(paths[u].clone().into()) }, 32);
                     let (same, d) = match refs.get(u) {
                         Some(Some(r)) => {
                             let d = diff_fields(r, &a);
